@@ -33,7 +33,7 @@ func clientViolations(w *World, prop string) []Violation {
 	for _, c := range w.Clients {
 		for _, v := range c.Ref.Viol {
 			if v.Prop == prop {
-				r = append(r, Violation{Property: prop, Class: v.Class, Message: v.Msg, Step: w.stepOfT(v.T), Conn: c.Idx, RID: v.RID, T: v.T})
+				r = append(r, Violation{Property: prop, Class: v.Class, Message: v.Msg, Step: w.stepOfT(v.T), Conn: c.Idx, RID: v.RID, T: v.T, Other: v.Other})
 			}
 		}
 	}
